@@ -992,6 +992,10 @@ def real_worker(job):
         shutil.rmtree(path.parent, ignore_errors=True)
 
 
+#: number of hex digits of the content digest in the module name (read from the source by translate/c17.py in setup)
+DIGEST_LEN = [12]
+
+
 def pair_worker(job):
     """two documents whose stems normalise alike, one session: A, then B, then A again"""
     import warnings
@@ -1011,15 +1015,25 @@ def pair_worker(job):
         write_doc(ca["doc"], pa)
         write_doc(cb["doc"], pb)
         try:
+            import hashlib
+
+            def observed(m, p):
+                """what the session model speaks about: stem, digest of the bytes, module name, text of the module file"""
+                mod = next(iter(m.get_raw_reactions().values())).fn.__module__
+                text = Path(sys.modules[mod].__file__).read_text()
+                return [p.stem, hashlib.sha256(p.read_bytes()).hexdigest()[:DIGEST_LEN[0]], hashlib.sha1(text.encode()).hexdigest()], mod
+
             ma = sbml.read(pa)
             first = eval_imported(ma, ca, ia)
+            sa, mod_a = observed(ma, pa)
             mb = sbml.read(pb)
             b = eval_imported(mb, cb, ib)
+            sb, mod_b = observed(mb, pb)
             again = eval_imported(ma, ca, ia)
+            file_a_now = hashlib.sha1(Path(sys.modules[mod_a].__file__).read_text().encode()).hexdigest()
             return {"a": first, "b": b, "a_again": again, "a_source_ok": source_consistent(ma),
                     "b_source_ok": source_consistent(mb),
-                    "modules": [next(iter(ma.get_raw_reactions().values())).fn.__module__,
-                                next(iter(mb.get_raw_reactions().values())).fn.__module__],
+                    "modules": [mod_a, mod_b], "session": [sa, sb], "a_file_intact": file_a_now == sa[2],
                     "stems": [pa.stem, pb.stem]}
         except Exception as e:  # noqa: BLE001
             return {"err": type(e).__name__, "msg": str(e)[:200]}
@@ -1289,6 +1303,13 @@ def check_stems(ctx):
 
 def setup(ctx):
     ctx.build(PROPS)
+    try:
+        from translate import c17 as tr
+        from vlib.framework import REPO
+
+        DIGEST_LEN[0] = tr.session_facts(REPO)["digest_len"]
+    except Exception:  # noqa: BLE001  (a refusing translator has already broken the proof side in ctx.build)
+        pass
     ctx.rule = (
         "generated SBML L3v2 documents (1-2 constant compartments of size 1, 2, 1/2, 4; 1-3 species given as amount or "
         "concentration, with or without hasOnlySubstanceUnits; parameters constant / rule-defined / with initial "
@@ -1338,6 +1359,8 @@ def run(ctx):
     for _ in range(ctx.n(24, 240)):
         a, b = gen_doc(ctx.rng, stratum="exact"), gen_doc(ctx.rng, stratum="exact")
         a["pair_stems"] = b["pair_stems"] = ctx.rng.choice(PAIR_STEMS)
+        if ctx.rng.random() < 0.15:
+            b = dict(a)  # the same content under the other stem: same digest, same code
         pairs.append((a, b))
     Ma = lean_docs(ctx, [a for a, _ in pairs])
     Mb = lean_docs(ctx, [b for _, b in pairs])
@@ -1353,7 +1376,17 @@ def run(ctx):
         S = {"a": Sa, "b": Sb, "a_again": Sa, "a_source_ok": True, "b_source_ok": True}
         Rv = {"a": snap(R["a"], Sa), "b": snap(R["b"], Sb), "a_again": snap(R["a_again"], Sa),
               "a_source_ok": R["a_source_ok"], "b_source_ok": R["b_source_ok"]}
-        ctx.judge(case, Rv, S, None, what="a second document read in the same session interferes with the first model")
+        # the Lean session model (Model/C17Session.lean) on what was observed: module names, and whether A's file is intact
+        Mv = None
+        if ctx.driver_ok:
+            ms = driver.call_batch([{"op": "c17", "session": R["session"]}])[0]
+            if ms["handles"] != R["modules"] or ms["module_names"] != R["modules"]:
+                ctx.add_drift(case, R["modules"], ms["handles"], "module names of two reads differ from readAll's handles")
+            if ms["intact"][0][0] != R["a_file_intact"]:
+                ctx.add_drift(case, R["a_file_intact"], ms["intact"][0], "the file of the first model after the second read: session model differs")
+            Mv = dict(Rv, a_source_ok=Rv["a_source_ok"] if ms["intact"][0][0] else False,
+                      b_source_ok=Rv["b_source_ok"] if ms["intact"][1][0] else False)
+        ctx.judge(case, Rv, S, Mv, what="a second document read in the same session interferes with the first model")
     check_stems(ctx)
     check_free_name(ctx)
     c17gen.check_codegen(ctx)
